@@ -660,6 +660,11 @@ def rand_groups(rng, cover=True):
     rng.shuffle(pool)
     n = rng.randint(1, 4)
     names = rng.sample(NAMES, n)
+    if form == "dict" and rng.random() < 0.08:
+        # a user's group called like the library's own key for "no class groups" (alone or next to others)
+        names[rng.randrange(n)] = rng.choice(["ungrouped", "Ungrouped"])
+        if rng.random() < 0.6:
+            n, names = 1, [names[names.index("ungrouped") if "ungrouped" in names else names.index("Ungrouped")]]
     if form == "dict" and n >= 2 and rng.random() < 0.25:
         # two keys that the constructor maps to one group name (case / int vs str): the later entry replaces
         # the earlier one, and the earlier one's labels must be gone from the original as they are from the copy
